@@ -137,6 +137,7 @@ def run_check(pid, tier, harnesses, expect=(), attempted=(), assumptions=(), bou
                 a["paths"] += out["paths"]
                 a["nontrivial"] += out["nontrivial_paths"]
                 a["queries"] += out["queries"]
+                a["nested"] = a.get("nested", 0) + out.get("nested_leaves", 0)
                 a["solver_s"] += out["solver_s"]
                 a["records"].extend(out["records"])
                 a["errors"].extend(out["errors"])
@@ -257,6 +258,7 @@ def run_check(pid, tier, harnesses, expect=(), attempted=(), assumptions=(), bou
             "samples": samples,
             "paths": total_paths,
             "paths_with_symbolic_branch": nontriv_paths,
+            "nested_leaves": sum(a.get("nested", 0) for a in agg.values()),
             "obligations": n_obl,
             "discharged": n_dis,
             "obligations_by_id": per_obl,
